@@ -233,6 +233,14 @@ QueryList(q, f, vs) ==
     /\ Emit([from |-> St, act |-> "QueryList", args |-> <<q, f, vs>>,
              obs |-> SelectSeq([i \in DOMAIN bag |-> i], LAMBDA i : MatchesList(bag[i], q, f, vs))])
 
+(* the REPRESENTATION of an argument never matters: a window position given as  *)
+(* a numpy integer (e.g. taken from spans the database returned) or a text value *)
+(* given as numpy.str_ selects exactly what the plain int / str selects          *)
+CoordReps == {"int64", "int32", "uint8"}
+QueryRep(q, rep) ==
+    /\ UNCHANGED bag
+    /\ Emit([from |-> St, act |-> "QueryRep", args |-> <<q, rep>>, obs |-> MatchIdx(bag, q)])
+
 (* count_distinct(seqid=, biotype=, name=): each argument is "no" (False),       *)
 (* "group" (True: a column of the result) or a value (a constraint).  The result *)
 (* has ONE row per distinct combination of the grouped columns among the         *)
@@ -287,6 +295,9 @@ Next ==
     \/ \E r \in ExtRecs : CanonOK(r) /\ \E ord \in OrdsRow(r) : AddRow(RowOf(r, ord), ord)
     \/ \E q \in Queries : Query(q)
     \/ "QueryList" \in Ops /\ \E q \in Queries, fv \in ListArgs : NumCats(q) = 0 /\ QueryList(q, fv[1], fv[2])
+    \/ "QueryRep" \in Ops /\ \E q \in Queries :
+           \/ q.win # "none" /\ NumCats(q) = 0 /\ \E rep \in CoordReps : QueryRep(q, rep)
+           \/ q.win = "none" /\ NumCats(q) > 0 /\ QueryRep(q, "str_")
     \/ "CountDistinct" \in Ops /\ \E c \in CDArgs : CountDistinct(c)
     \/ "Describe" \in Ops /\ Describe
     \/ "Subset" \in Ops /\ \E q \in Queries : NumCats(q) \in SubsetCats /\ Subset(q)
